@@ -338,6 +338,9 @@ func Compare(e *Edge, o *Obs, sc Scale) string {
 	}
 	// the byte count returned together with a refusal is not specified
 	refusal := e.Ret.ID == 0 && e.Ret.Action == "deny" && (e.Ret.Status == 413 || e.Ret.Status == 500)
+	if e.Ret.Action != "none" && (e.Post.ReqErr || e.Post.RespErr) {
+		refusal = true // a write refused at the limit while an earlier interruption is the one reported
+	}
 	if !refusal && e.N*int(sc) != o.N {
 		return "bytes-taken"
 	}
